@@ -102,7 +102,8 @@ def handle1 (op : String) (args : List Sexp) : Option String := do
       let s ← sigOf (← Val.ofSexp s); let ds ← decosOf (← Val.ofSexp ds)
       let c ← callOf (← Val.ofSexp a) (← Val.ofSexp k)
       let fn := mkMany ds { chain := [], base := 0 }
-      pure (reply (evalChain s recBody fn.chain c))
+      -- a `loops` layer that receives a list / tuple / dict of a looped type: outside the model (C19's subject) => bad-op
+      if inDomain s fn.chain c then pure (reply (evalChain s recBody fn.chain c)) else Option.none
   | "stackhist", [s, ds, cs] =>
       let s ← sigOf (← Val.ofSexp s); let ds ← decosOf (← Val.ofSexp ds)
       let fn := mkMany ds { chain := [], base := 0 }
@@ -111,7 +112,7 @@ def handle1 (op : String) (args : List Sexp) : Option String := do
           let cs ← cs.mapM fun
             | .tuple [a, k] => callOf a k
             | _ => Option.none
-          pure (reply (.ok (.list (stackReplies s fn.chain {} cs))))
+          if cs.all (inDomain s fn.chain) then pure (reply (.ok (.list (stackReplies s fn.chain {} cs)))) else Option.none
       | _ => Option.none
   | "stackhist2", [s, steps] =>
       -- `(L (T S:wrap S:class (D params)) | (T S:call (L args) (D kw)) ...)`: constructor applications between the calls
